@@ -1484,7 +1484,6 @@ func c06EnumMemberNamesVerbatim(ctx *Ctx, r *Report) {
 	r.Floor("enum members copied by non-renaming passes", 1)
 }
 
-
 // c06SecondHunt — (a) the passes that walk types by hand (a `processType` method dispatching on the kind, instead of the
 // shared Visitor) must descend into every container kind: array, map, disjunction, struct *and* intersection; the
 // Visitor does. A walker without the intersection case leaves what an allOf branch holds untouched. (b) a sanitised
